@@ -6,6 +6,7 @@ import (
 	"fmt"
 	"runtime"
 	"sync"
+	"sync/atomic"
 	"time"
 )
 
@@ -26,6 +27,8 @@ type cron struct {
 
 type cronJob struct {
 	disable bool
+	// already in the spool for the next run
+	spooled atomic.Bool
 
 	job gen.CronJob
 
@@ -63,6 +66,7 @@ func createCron(node gen.Node) *cron {
 				break
 			}
 			cj := item.(*cronJob)
+			cj.spooled.Store(false)
 			if cj.disable == true {
 				continue
 			}
@@ -341,6 +345,10 @@ func (c *cron) scheduleJob(cj *cronJob) {
 		return
 	}
 	if cj.mask.IsRunAt(next) == false {
+		return
+	}
+	if cj.spooled.Swap(true) {
+		// it is in the spool already (EnableJob on a job that is scheduled)
 		return
 	}
 	c.spool.Push(cj)
